@@ -1,0 +1,97 @@
+//go:build verif
+
+// Contracts for contract-based deductive verification (govc, /verif).
+// This file contains comments only; it adds no code to the package.
+
+package multicast
+
+//@ opaque github.com/gauss-project/aurorafs/pkg/boson.Address as Addr
+
+//@ # ---- assumed here, proved in pkg/topology/pslice (C21): a PSlice is a set of peers ---------------
+//@ opaque github.com/gauss-project/aurorafs/pkg/topology/pslice.PSlice as PSet
+//@ spec func psMem(s PSet, x boson.Address) bool
+//@ extern func (*github.com/gauss-project/aurorafs/pkg/topology/pslice.PSlice).Exists
+//@   requires s != nil
+//@   ensures result == psMem(deref(s), addr)
+//@   assigns nothing
+//@ extern func (*github.com/gauss-project/aurorafs/pkg/topology/pslice.PSlice).Add
+//@   requires s != nil
+//@   assigns target(s)
+//@   ensures forall x boson.Address :: psMem(deref(s), x) <==> (old(psMem(deref(s), x)) || (exists i :: 0 <= i && i < len(addrs) && addrs[i] == x))
+//@ extern func (*github.com/gauss-project/aurorafs/pkg/topology/pslice.PSlice).Remove
+//@   requires s != nil
+//@   assigns target(s)
+//@   ensures forall x boson.Address :: psMem(deref(s), x) <==> (old(psMem(deref(s), x)) && x != addr)
+//@ extern func (*github.com/gauss-project/aurorafs/pkg/topology/pslice.PSlice).Length
+//@   assigns nothing
+//@ extern func (*github.com/gauss-project/aurorafs/pkg/topology/pslice.PSlice).BinPeers
+//@   assigns nothing
+
+//@ # is the peer a direct neighbour: whatever the route service answers (a function of the peer for
+//@ # the duration of one call)
+//@ spec func isNb(route int, peer boson.Address) bool
+//@ extern func (github.com/gauss-project/aurorafs/pkg/routetab.RouteTab).IsNeighbor
+//@   ensures has == isNb(ref(self), dest)
+//@   assigns nothing
+//@ # telling the subscribers reads the lists and sends: no list changes
+//@ func (*Group).notifyPeers
+//@   trusted
+//@   assigns nothing
+
+//@ # a group: three distinct peer sets
+//@ spec func groupOK(g *Group) bool = g.connectedPeers != nil && g.keepPeers != nil && g.knownPeers != nil && g.connectedPeers != g.keepPeers && g.connectedPeers != g.knownPeers && g.keepPeers != g.knownPeers && g.srv != nil && g.srv.route != nil && g.srv.logger != nil
+//@ spec func inC(g *Group, x boson.Address) bool = psMem(deref(g.connectedPeers), x)
+//@ spec func inK(g *Group, x boson.Address) bool = psMem(deref(g.keepPeers), x)
+//@ spec func inKn(g *Group, x boson.Address) bool = psMem(deref(g.knownPeers), x)
+
+//@ func (*Group).add
+//@   property C38
+//@   requires g != nil && groupOK(g)
+//@   ensures in-exactly-one-list: (inC(g, peer) || inK(g, peer) || inKn(g, peer)) && !(inC(g, peer) && inK(g, peer)) && !(inC(g, peer) && inKn(g, peer)) && !(inK(g, peer) && inKn(g, peer))
+//@   ensures connected-only-if-a-direct-neighbour: inC(g, peer) ==> keep && isNb(ref(g.srv.route), peer)
+//@   ensures kept-only-when-asked-and-not-a-neighbour: inK(g, peer) ==> keep && !isNb(ref(g.srv.route), peer)
+//@   ensures not-kept-means-known: !keep ==> inKn(g, peer)
+//@   ensures other-peers-untouched: forall x boson.Address :: x != peer ==> (inC(g, x) <==> old(inC(g, x))) && (inK(g, x) <==> old(inK(g, x))) && (inKn(g, x) <==> old(inKn(g, x)))
+
+//@ func (*Group).remove
+//@   property C38
+//@   requires g != nil && groupOK(g)
+//@   ensures gone-from-connected-and-kept: !inC(g, peer) && !inK(g, peer)
+//@   ensures known-only-when-asked: inKn(g, peer) ==> intoKnown
+//@   ensures known-kept-when-asked: intoKnown && old(inKn(g, peer)) ==> inKn(g, peer)
+//@   ensures demoted-to-known: intoKnown && (old(inC(g, peer)) || old(inK(g, peer))) ==> inKn(g, peer)
+//@   ensures other-peers-untouched: forall x boson.Address :: x != peer ==> (inC(g, x) <==> old(inC(g, x))) && (inK(g, x) <==> old(inK(g, x))) && (inKn(g, x) <==> old(inKn(g, x)))
+
+//@ func (*Group).pruneKnown
+//@   property C38
+//@   requires g != nil && groupOK(g)
+//@   ensures only-known-shrinks: forall x boson.Address :: (inC(g, x) <==> old(inC(g, x))) && (inK(g, x) <==> old(inK(g, x))) && (inKn(g, x) ==> old(inKn(g, x)))
+//@   loop 1 invariant 0 - 1 <= rangeindex && rangeindex < len(peers)
+//@   loop 1 invariant groupOK(g) && forall x boson.Address :: (inC(g, x) <==> old(inC(g, x))) && (inK(g, x) <==> old(inK(g, x))) && (inKn(g, x) ==> old(inKn(g, x)))
+
+//@ # flooding: a message is delivered and forwarded only the first time its (origin, id) key is seen
+//@ # inside the cache window, and never when this node is the origin
+//@ extern func (github.com/gauss-project/aurorafs/pkg/boson.Address).Equal
+//@   ensures result == (a == b)
+//@   assigns nothing
+//@ # the message cache: SetIfNotExist answers true at most once per key and window (assumed)
+//@ extern func (github.com/gogf/gf/v2/os/gcache.Adapter).SetIfNotExist
+//@   assigns nothing
+//@ func (*Service).notifyLogContent
+//@   trusted
+//@   assigns nothing
+//@ func (*Group).notifyMulticast
+//@   trusted
+//@   assigns nothing
+//@ func (*Service).Multicast
+//@   trusted
+//@   assigns nothing
+//@ func (*Service).getGroup
+//@   trusted
+//@   assigns nothing
+//@ func (*Service).onMulticast
+//@   property C38
+//@   requires s != nil && stream != nil && s.logger != nil && cache != nil && cache.localAdapter != nil
+//@   callassert Group.notifyMulticast delivered-once-per-key: setOK && !(origin == s.self)
+//@   callassert Service.Multicast forwarded-once-per-key: setOK && !(origin == s.self)
+//@   callassert Service.notifyLogContent logged-once-per-key: setOK && !(origin == s.self)
